@@ -67,18 +67,6 @@ theorem nodup_dedup {α : Type} [DecidableEq α] (l : List α) : (dedup l).Nodup
 
 /-! ### `sortBy` only reorders -/
 
-theorem insertBy_perm {α : Type} (le : α → α → Bool) (a : α) : ∀ l : List α, insertBy le a l ~ a :: l
-  | [] => Perm.refl _
-  | b :: l => by
-    simp only [insertBy]
-    split
-    · exact Perm.refl _
-    · exact ((insertBy_perm le a l).cons b).trans (Perm.swap a b l)
-
-theorem sortBy_perm {α : Type} (le : α → α → Bool) : ∀ l : List α, sortBy le l ~ l
-  | [] => Perm.refl _
-  | a :: l => (insertBy_perm le a _).trans ((sortBy_perm le l).cons a)
-
 theorem mem_sortBy {α : Type} {le : α → α → Bool} {l : List α} {a : α} : a ∈ sortBy le l ↔ a ∈ l :=
   (sortBy_perm le l).mem_iff
 
@@ -190,6 +178,8 @@ theorem exists_reqType {m : Module} {r : Req} (hr : r ∈ collected m) :
 theorem adKey_mem_adefsOf {m : Module} {r : Req} (hr : r ∈ collected m) {a : Attr} (ha : a ∈ r.attrs) :
     adKey a ∈ adefsOf m (typeKey r) := by
   unfold adefsOf
+  rw [(m.setOrder_perm _ _).mem_iff]
+  unfold adefsSeen
   rw [mem_dedup]
   simp only [List.mem_flatMap, List.mem_filter, List.mem_map]
   exact ⟨r, ⟨hr, by simp⟩, a, ha, rfl⟩
@@ -204,6 +194,8 @@ theorem adKey_mem_allAdefs {m : Module} {r : Req} (hr : r ∈ collected m) {a : 
 theorem exists_attr_of_mem_adefsOf {m : Module} {k : Option Str} {x : ADKey} (hx : x ∈ adefsOf m k) :
     ∃ r ∈ m.dfs, typeKey r = k ∧ ∃ a ∈ r.attrs, adKey a = x := by
   unfold adefsOf at hx
+  rw [(m.setOrder_perm _ _).mem_iff] at hx
+  unfold adefsSeen at hx
   rw [mem_dedup] at hx
   simp only [List.mem_flatMap, List.mem_filter, List.mem_map] at hx
   obtain ⟨r, ⟨hr, hk⟩, a, ha, rfl⟩ := hx
@@ -604,7 +596,7 @@ theorem specType_ownIds_nodup (m : Module) (hI : Identity m) (t : Option ReqType
     rw [List.nodup_iff_pairwise_ne, List.pairwise_map] at this ⊢
     exact this.imp (fun h e => h (by simpa using e))
   · rw [List.map_map]
-    refine nodup_map_of_inj (nodup_dedup _) ?_
+    refine nodup_map_of_inj ((m.setOrder_perm _ _).nodup_iff.mpr (nodup_dedup _)) ?_
     intro x hx y hy e
     simp only [Function.comp, AttrDefEl.ident, attrDefEl, Ident.attrDef.injEq, true_and] at e
     obtain ⟨e1, e2⟩ := e
@@ -794,15 +786,37 @@ theorem Value.decode_render (v : Value) (h : v.Proper) :
 
 /-! ### when the exporter raises -/
 
+theorem specTypeErr_none {m : Module} (hE : hasEnumWithoutDef m = false) (hC : hasClassViolation m = false) :
+    (allAdefs m).filterMap specTypeErr = [] := by
+  rw [List.filterMap_eq_nil_iff]
+  intro x hx
+  simp only [hasEnumWithoutDef, List.any_eq_false] at hE
+  simp only [hasClassViolation, Bool.or_eq_false_iff, List.any_eq_false] at hC
+  have h1 := hE x hx
+  have h2 := hC.2 x hx
+  unfold specTypeErr at h2 ⊢
+  split
+  · next hk =>
+    rw [if_pos hk] at h2
+    cases hd : x.1 with
+    | none => simp [hd, hk] at h1
+    | some d =>
+      simp only [hd] at h2 ⊢
+      cases hde : d.isEnum <;> simp_all
+  · rfl
+
 theorem export_ok (x : Str → Option Str) (m : Module) (hx : (x emptyDiv).isSome = true)
     (hdiv : ∀ s, (x (wrapDiv s)).isSome = true)
-    (hE : hasEnumWithoutDef m = false) : «export» x m = .ok (doc x m) := by
+    (hE : hasEnumWithoutDef m = false) (hC : hasClassViolation m = false) : «export» x m = .ok (doc x m) := by
   have h1 : ∀ s, (toXhtml x s).isSome = true := by
     intro s
     unfold toXhtml
     cases x s <;> simp [hx]
+  have hw : (dtWinners m).any dtAttrErr = false := by
+    simp only [hasClassViolation, Bool.or_eq_false_iff] at hC
+    exact hC.1
   have : errors x m = [] := by
-    simp only [errors, hE, Bool.false_eq_true, if_false, List.nil_append, List.append_eq_nil_iff]
+    simp only [errors, hw, specTypeErr_none hE hC, Bool.false_eq_true, if_false, List.nil_append, List.append_eq_nil_iff]
     constructor
     · rw [if_neg]
       simp only [List.any_eq_true, not_exists, not_and]
@@ -820,9 +834,77 @@ theorem export_ok (x : Str → Option Str) (m : Module) (hx : (x emptyDiv).isSom
       simp [Option.isSome_iff_ne_none.mp this]
   simp [«export», this]
 
-theorem export_assertion (x : Str → Option Str) (m : Module) (hE : hasEnumWithoutDef m = true) :
-    «export» x m = .error .assertion := by
-  simp [«export», errors, hE]
+theorem filterMap_specTypeErr_head {l : List ADKey} (h : ∃ x ∈ l, (specTypeErr x).isSome = true) :
+    ∃ e rest, l.filterMap specTypeErr = e :: rest ∧ (e = .assertion ∨ e = .attribute) := by
+  cases hl : l.filterMap specTypeErr with
+  | nil =>
+    obtain ⟨x, hx, hs⟩ := h
+    rw [List.filterMap_eq_nil_iff] at hl
+    simp [hl x hx] at hs
+  | cons e rest =>
+    refine ⟨e, rest, rfl, ?_⟩
+    have : e ∈ l.filterMap specTypeErr := hl ▸ List.mem_cons_self ..
+    obtain ⟨x, _, hx⟩ := List.mem_filterMap.mp this
+    unfold specTypeErr at hx
+    split at hx
+    · split at hx
+      · cases hx; exact Or.inl rfl
+      · split at hx
+        · cases hx
+        · cases hx; exact Or.inr rfl
+    · cases hx
+
+/-- with an enumeration attribute without definition no document is written: the assertion, or (only
+when the module also holds a class-violating link that is reached first) the `AttributeError` -/
+theorem export_no_document (x : Str → Option Str) (m : Module)
+    (h : hasEnumWithoutDef m = true ∨ hasClassViolation m = true) :
+    ∃ e, «export» x m = .error e ∧ (e = .assertion ∨ e = .attribute) := by
+  by_cases hw : (dtWinners m).any dtAttrErr = true
+  · exact ⟨.attribute, by simp [«export», errors, hw], Or.inr rfl⟩
+  · have hw' : (dtWinners m).any dtAttrErr = false := by simpa using hw
+    have hex : ∃ x ∈ allAdefs m, (specTypeErr x).isSome = true := by
+      rcases h with h | h
+      · simp only [hasEnumWithoutDef, List.any_eq_true] at h
+        obtain ⟨x, hx, hp⟩ := h
+        refine ⟨x, hx, ?_⟩
+        simp only [Bool.and_eq_true, Option.isNone_iff_eq_none, beq_iff_eq] at hp
+        simp [specTypeErr, hp.1, hp.2]
+      · simp only [hasClassViolation, hw', Bool.false_or, List.any_eq_true, beq_iff_eq] at h
+        obtain ⟨x, hx, hp⟩ := h
+        exact ⟨x, hx, by simp [hp]⟩
+    obtain ⟨e, rest, he, hcls⟩ := filterMap_specTypeErr_head hex
+    exact ⟨e, by simp [«export», errors, hw', he], hcls⟩
+
+theorem export_assertion (x : Str → Option Str) (m : Module) (hE : hasEnumWithoutDef m = true)
+    (hC : hasClassViolation m = false) : «export» x m = .error .assertion := by
+  obtain ⟨e, he, hcls⟩ := export_no_document x m (Or.inl hE)
+  rcases hcls with rfl | rfl
+  · exact he
+  · exfalso
+    -- an `attribute` error needs a class violation
+    simp only [hasClassViolation, Bool.or_eq_false_iff, List.any_eq_false] at hC
+    have hw : (dtWinners m).any dtAttrErr = false := by
+      simp only [List.any_eq_false]; exact hC.1
+    simp only [«export», errors, hw, Bool.false_eq_true, if_false, List.nil_append] at he
+    cases hl : (allAdefs m).filterMap specTypeErr with
+    | nil =>
+      rw [hl] at he
+      simp only [List.nil_append] at he
+      split at he
+      · next e' _ heq =>
+        cases he
+        split at heq
+        · split at heq <;> simp at heq
+        · split at heq <;> simp at heq
+      · cases he
+    | cons e' rest =>
+      rw [hl] at he
+      simp only [List.cons_append] at he
+      cases he
+      have : Err.attribute ∈ (allAdefs m).filterMap specTypeErr := hl ▸ List.mem_cons_self ..
+      obtain ⟨y, hy, hy'⟩ := List.mem_filterMap.mp this
+      have := hC.2 y hy
+      simp [hy'] at this
 
 
 /-! ### identifier rendering is injective on uuid-shaped keys -/
